@@ -307,7 +307,7 @@ def real_meta_exclude():
     """META_EXCLUDE as the real module computes it at import time (set(dir(Event())) plus the explicit additions)"""
     if 'excl' not in _CACHE:
         p = subprocess.run(['/venv/bin/python', '-c', 'import json; from circuits.node.utils import META_EXCLUDE; print(json.dumps(sorted(META_EXCLUDE)))'],
-                           capture_output=True, text=True, env=dict(os.environ, PYTHONPATH='/repo'), timeout=60)
+                           capture_output=True, text=True, env=dict(os.environ, PYTHONPATH=contract.REPO), timeout=60)
         _CACHE['excl'] = set(json.loads(p.stdout))
     return _CACHE['excl']
 
@@ -577,7 +577,7 @@ def event_attribute_reads():
 def meta_structural(res, opts):
     reads = event_attribute_reads()
     p = subprocess.run(['/venv/bin/python', '-c', 'import json; from circuits.node.utils import META_EXCLUDE; print(json.dumps(sorted(META_EXCLUDE)))'],
-                       capture_output=True, text=True, env=dict(os.environ, PYTHONPATH='/repo'), timeout=60)
+                       capture_output=True, text=True, env=dict(os.environ, PYTHONPATH=contract.REPO), timeout=60)
     excl = set(json.loads(p.stdout))
     add_ob(res, 'meta.read_set_computed', len(reads) >= 10, 'ast', detail='%d event attributes are read by the dispatching core' % len(reads))
     # only read on generate_events instances (isinstance guard); Event.create builds a plain Event subclass from a packet
